@@ -459,6 +459,10 @@ func TestC12(t *testing.T) { rapid.Check(t, propC12) }
 func FuzzC12(f *testing.F) { f.Fuzz(rapid.MakeFuzz(propC12)) }
 
 func propC12(t *rapid.T) {
+	if rapid.IntRange(0, 7).Draw(t, "crcells") == 0 {
+		propC12CR(t)
+		return
+	}
 	{
 		c := genCSVCase(t)
 		data := c.doc.Bytes()
@@ -519,4 +523,56 @@ func propC12(t *rapid.T) {
 		}
 		evC12.Case((special && fragmented) || long, desc, classes...)
 	}
+}
+
+// propC12CR is the fragmentation half of C12 alone, for documents the denotation half leaves out: quoted cells that
+// contain CR (bare, as CRLF, doubled). What such a cell denotes is not asserted (the reader documents that it drops CR),
+// but whatever ReadCSV makes of the document, it makes the same of it however the reader delivers the bytes.
+func propC12CR(t *rapid.T) {
+	c := genCSVCase(t)
+	injected := 0
+	for r, row := range c.doc.Rows {
+		for i, cell := range row {
+			if len(cell) > 64 || rapid.IntRange(0, 2).Draw(t, "crhere") != 0 {
+				continue
+			}
+			pos := rapid.IntRange(0, len(cell)).Draw(t, "crpos")
+			piece := rapid.SampledFrom([]string{"\r", "\r\n", "\r\r\n", "x\r", "\r\"", "\n\r"}).Draw(t, "crpiece")
+			c.doc.Rows[r][i] = cell[:pos] + piece + cell[pos:]
+			c.doc.Quote[r][i] = true
+			injected++
+		}
+	}
+	data := c.doc.Bytes()
+	desc := func() string { return c.String() }
+	fns := c.confFns()
+	var whole, frag qframe.QFrame
+	if perr := hx.Safely(func() { whole = qframe.ReadCSV(bytes.NewReader(data), fns...) }); perr != nil {
+		t.Fatalf("ReadCSV panicked (one read): %v\n%s", perr, desc())
+	}
+	rd := hx.NewChunkReader(data, c.schedule, c.eofWith)
+	rd.NoCycle = c.noCycle
+	if perr := hx.Safely(func() { frag = qframe.ReadCSV(rd, fns...) }); perr != nil {
+		t.Fatalf("ReadCSV panicked (fragmented): %v\n%s", perr, desc())
+	}
+	if (whole.Err == nil) != (frag.Err == nil) {
+		t.Fatalf("the document read in one piece gives Err %v, read in fragments Err %v\n%s", whole.Err, frag.Err, desc())
+	}
+	if whole.Err == nil {
+		wt, err1 := hx.Observe(whole)
+		ft, err2 := hx.Observe(frag)
+		if err1 != nil || err2 != nil {
+			t.Fatalf("observe: %v %v\n%s", err1, err2, desc())
+		}
+		if diff := hx.Diff(wt, ft); diff != "" {
+			t.Fatalf("the document read in fragments differs from the same document read in one piece: %s\n%s\none piece %s\nfragments %s", diff, desc(), wt.String(), ft.String())
+		}
+	}
+	fragmented := len(c.schedule) > 0
+	for _, s := range c.schedule {
+		if s > 7 {
+			fragmented = false
+		}
+	}
+	evC12.Case(injected > 0 && fragmented, desc, "cr-inside-quoted-cells", "sched:"+c.schedTag)
 }
